@@ -27,6 +27,13 @@ func (e *bndEngine) callModel(p *prover, x *ssa.Call, cal *ssa.Function, k strin
 		p.add(constraint{linVar(k).add(linConst(1)), "index functions return >= -1"})
 		p.add(constraint{p.lenOf(x.Call.Args[0]).sub(linVar(k)).add(linConst(-1)), "index functions return < len"})
 		p.used["model: "+name+" returns -1 <= r < len(s)"] = true
+		if st, f, _, ok := fieldRefThroughLoad(x.Call.Args[0]); ok && st == "Percentile" && f == "Str" {
+			if sep, isS := constString(x.Call.Args[1]); isS && sep == "_" {
+				p.add(constraint{linVar(k), "percentile names contain '_'"})
+				p.used["lemma L9: every Percentile.Str is built as <prefix ending in '_'> + number (witnessed by C08.R1 name:* obligations and the single Percentiles.Set caller)"] = true
+			}
+		}
+	case false:
 	case strings.HasSuffix(name, ".Len") && (strings.Contains(name, "strings.Builder") || strings.Contains(name, "bytes.Buffer")):
 		p.add(constraint{linVar(k), "Len() >= 0"})
 	case FuncName(cal) == "pkg/statsd.min":
@@ -44,7 +51,23 @@ func (e *bndEngine) lenModel(p *prover, x *ssa.Call, cal *ssa.Function, k string
 	case name == "strings.Split":
 		p.add(constraint{linVar(k).add(linConst(-1)), "strings.Split returns at least one element"})
 		p.used["model: strings.Split with a non-empty separator returns >= 1 element"] = true
+	case name == "(*strings.Builder).String" || name == "(*bytes.Buffer).String" || name == "(*bytes.Buffer).Bytes":
+		e.builderLenModel(p, x, k)
 	case name == "strings.SplitN":
+		if n, ok := constInt(x.Call.Args[2]); ok && n >= 2 {
+			// dominated by strings.Contains(s, sep) == true with the same s and sep: at least two parts
+			for _, cd := range condsFor(x.Block()) {
+				cd = normCond(cd)
+				if cc, ok := cd.V.(*ssa.Call); ok && isCall(cc, "strings.Contains") && cd.Sense && cc.Call.Args[0] == x.Call.Args[0] {
+					s1, ok1 := constString(cc.Call.Args[1])
+					s2, ok2 := constString(x.Call.Args[1])
+					if ok1 && ok2 && s1 == s2 && s1 != "" {
+						p.add(constraint{linVar(k).add(linConst(-2)), "Contains(s, sep) implies SplitN(s, sep, n>=2) has two parts"})
+						p.used["model: strings.Contains(s, sep) implies len(strings.SplitN(s, sep, n>=2)) >= 2"] = true
+					}
+				}
+			}
+		}
 		if n, ok := constInt(x.Call.Args[2]); ok && n > 0 {
 			p.add(constraint{linVar(k).add(linConst(-1)), "SplitN(n>0) returns at least one element"})
 			p.add(constraint{linConst(n).sub(linVar(k)), "SplitN returns at most n elements"})
@@ -160,6 +183,18 @@ func (e *bndEngine) extractFacts(p *prover, x *ssa.Extract, k string) {
 		p.add(constraint{p.lenOf(cc.Args[0]).sub(linVar(k)), "ReadBatch returns n <= len(ms)"})
 		p.used["lemma L4: BatchReader.ReadBatch returns 0 <= n <= len(ms) (module implementations checked structurally; x/net ReadBatch documented contract)"] = true
 	}
+	if cal := staticCallee(cl); cal != nil && strings.HasPrefix(cal.String(), "slices.BinarySearch") && x.Index == 0 {
+		p.add(constraint{linVar(k), "BinarySearch returns 0 <= i"})
+		p.add(constraint{p.lenOf(cc.Args[0]).sub(linVar(k)), "BinarySearch returns i <= len"})
+		// found on this path?
+		for _, cd := range condsFor(p.at.Block()) {
+			cd = normCond(cd)
+			if ex, ok := cd.V.(*ssa.Extract); ok && ex.Tuple == x.Tuple && ex.Index == 1 && cd.Sense {
+				p.add(constraint{p.lenOf(cc.Args[0]).sub(linVar(k)).add(linConst(-1)), "found implies i < len"})
+			}
+		}
+		p.used["model: slices.BinarySearch* returns 0 <= i <= len(s), and i < len(s) when found"] = true
+	}
 	if cal := staticCallee(cl); cal != nil {
 		if strings.Contains(cal.String(), "golang.org/x/net/") && cal.Name() == "ReadBatch" && x.Index == 0 {
 			p.add(constraint{linVar(k), "ReadBatch returns n >= 0"})
@@ -169,7 +204,109 @@ func (e *bndEngine) extractFacts(p *prover, x *ssa.Extract, k string) {
 	}
 }
 
-func (e *bndEngine) extractLenFacts(p *prover, x *ssa.Extract, k string) {}
+func (e *bndEngine) extractLenFacts(p *prover, x *ssa.Extract, k string) {
+	// findTag(a, prefix) returns (tag, true) only for a tag that has the prefix
+	if cl, ok := x.Tuple.(*ssa.Call); ok && x.Index == 0 {
+		if cal := staticCallee(cl); cal != nil && FuncName(cal) == "pkg/statsd.findTag" {
+			for _, cd := range condsFor(p.at.Block()) {
+				cd = normCond(cd)
+				if ex, ok := cd.V.(*ssa.Extract); ok && ex.Tuple == x.Tuple && ex.Index == 1 && cd.Sense {
+					p.add(constraint{linVar(k).sub(p.lenOf(cl.Call.Args[1])), "findTag returns a tag with the prefix"})
+					p.used["summary: pkg/statsd.findTag returns (n, true) only under strings.HasPrefix(n, prefix) (witnessed by C04.R1a findTag-shape)"] = true
+				}
+			}
+		}
+	}
+}
+
+// builderLenModel: length of sb.String() relative to sb.Len() / to the writes that precede it.
+func (e *bndEngine) builderLenModel(p *prover, x *ssa.Call, k string) {
+	recv := x.Call.Args[0]
+	isWrite := func(cl ssa.CallInstruction) bool {
+		cal := staticCallee(cl)
+		if cal == nil || len(cl.Common().Args) == 0 || cl.Common().Args[0] != recv {
+			return false
+		}
+		n := cal.Name()
+		return strings.HasPrefix(n, "Write") || n == "Reset" || n == "Grow" || n == "Truncate"
+	}
+	// (a) a dominating sb.Len() with no write in between
+	for _, cl := range callsIn(p.fn) {
+		cal := staticCallee(cl)
+		if cal == nil || cal.Name() != "Len" || len(cl.Common().Args) == 0 || cl.Common().Args[0] != recv {
+			continue
+		}
+		lc, ok := cl.(*ssa.Call)
+		if !ok || !instrDominates(lc, x) {
+			continue
+		}
+		clean := true
+		for _, w := range callsIn(p.fn) {
+			if isWrite(w) && instrReaches(lc, w) && instrReaches(w, x) {
+				clean = false
+			}
+		}
+		if clean {
+			p.eqFact(linVar(k), p.lin(lc), "len(sb.String()) == sb.Len() (no write in between)")
+			p.used["model: strings.Builder: len(String()) == Len() when nothing was written in between"] = true
+		}
+	}
+	// (b) a completed range loop over a non-empty map whose body always writes at least one byte
+	eachInstr(p.fn, func(in ssa.Instruction) {
+		rg, ok := in.(*ssa.Range)
+		if !ok {
+			return
+		}
+		if _, isMap := rg.X.Type().Underlying().(*types.Map); !isMap {
+			return
+		}
+		var next *ssa.Next
+		for _, rf := range referrers(rg) {
+			if n, ok := rf.(*ssa.Next); ok {
+				next = n
+			}
+		}
+		if next == nil {
+			return
+		}
+		head := next.Block()
+		body, done := head.Succs[0], head.Succs[1]
+		if !(done == x.Block() || done.Dominates(x.Block())) {
+			return
+		}
+		// a write of a non-empty constant on every path through the body
+		pd := newPostDom(p.fn)
+		wrote := false
+		for _, w := range callsIn(p.fn) {
+			if !isWrite(w) || !(w.Block() == body || body.Dominates(w.Block())) {
+				continue
+			}
+			cal := staticCallee(w)
+			nonEmpty := cal.Name() == "WriteByte" || cal.Name() == "WriteRune"
+			if cal.Name() == "WriteString" {
+				if sv, ok := constString(w.Common().Args[1]); ok && sv != "" {
+					nonEmpty = true
+				}
+			}
+			if nonEmpty && (w.Block() == body || pd.PostDominates(w.Block(), body)) {
+				wrote = true
+			}
+		}
+		if !wrote {
+			return
+		}
+		// no Reset/Truncate between loop and String
+		for _, w := range callsIn(p.fn) {
+			if cal := staticCallee(w); cal != nil && (cal.Name() == "Reset" || cal.Name() == "Truncate") && len(w.Common().Args) > 0 && w.Common().Args[0] == recv {
+				return
+			}
+		}
+		if p.holds(p.lenOf(rg.X).add(linConst(-1))) {
+			p.add(constraint{linVar(k).add(linConst(-1)), "a loop over a non-empty map wrote at least one byte"})
+			p.used["lemma L8: after ranging over a non-empty map with an unconditional non-empty write per iteration the builder is non-empty"] = true
+		}
+	})
+}
 
 // fieldFactsFor: configuration assumptions on integer fields.
 func (e *bndEngine) fieldFactsFor(p *prover, ld *ssa.UnOp, k string) {
@@ -207,77 +344,11 @@ func (e *bndEngine) lenFieldFacts(p *prover, ld *ssa.UnOp, k string) {
 		p.eqFact(linVar(k), linVar(nk), "len(bh.workers) == bh.numWorkers")
 		p.used["lemma L7: len(BackendHandler.workers) == BackendHandler.numWorkers (both set once from the same constructor parameter, witnessed by C06.R3 NewBackendHandler:same-count and C03.R2a frame check)"] = true
 	}
+	if st, f, _, ok := fieldRef(ld.X); ok && e.nonEmptyField(st, f) {
+		p.add(constraint{linVar(k).add(linConst(-1)), st + "." + f + " is never empty"})
+		p.used["lemma L10: "+st+"."+f+" is created with one element and only ever appended to (every store checked module-wide)"] = true
+	}
 	// Message.N <= len(Buffers[0]) is handled as lemma L6 at the slice site
-}
-
-// phi invariants --------------------------------------------------------------------------
-
-var phiInvBusy = map[*ssa.Phi]bool{}
-var phiInvCache = map[string]bool{}
-
-// phiInvariants tries the candidate invariant  intPhi == len(slicePhi)  for phis of one block.
-func (e *bndEngine) phiInvariants(p *prover, x *ssa.Phi, k string) {
-	for _, in := range x.Block().Instrs {
-		s, ok := in.(*ssa.Phi)
-		if !ok {
-			break
-		}
-		if _, isSl := s.Type().Underlying().(*types.Slice); !isSl {
-			continue
-		}
-		if e.checkPhiLenInvariant(p, x, s) {
-			p.eqFact(linVar(k), p.lenOf(s), "loop invariant "+x.Comment+" == len("+s.Comment+") (verified inductively)")
-		}
-	}
-}
-
-func (e *bndEngine) phiLenInvariants(p *prover, s *ssa.Phi, k string) {
-	// symmetric entry point: nothing extra (facts are added from the integer side)
-	// generic: len(phi) >= min over edges is not derived
-}
-
-func (e *bndEngine) checkPhiLenInvariant(p *prover, x, s *ssa.Phi) bool {
-	key := fmt.Sprintf("%p/%p", x, s)
-	if v, ok := phiInvCache[key]; ok {
-		return v
-	}
-	if phiInvBusy[x] {
-		return false
-	}
-	phiInvBusy[x] = true
-	defer delete(phiInvBusy, x)
-	ok := true
-	for i := range x.Edges {
-		pred := x.Block().Preds[i]
-		q := e.newProver(p.fn, pred.Instrs[len(pred.Instrs)-1])
-		// hypothesis at the loop head
-		hk := q.valKey(x)
-		q.defined[hk] = true
-		q.rangeFacts(hk, x.Type())
-		q.eqFact(linVar(hk), q.lenOfNoInv(s), "induction hypothesis")
-		q.gather()
-		a := q.lin(x.Edges[i])
-		b := q.lenOfNoInv(s.Edges[i])
-		if !(q.holds(a.sub(b)) && q.holds(b.sub(a))) {
-			ok = false
-			break
-		}
-	}
-	phiInvCache[key] = ok
-	return ok
-}
-
-// lenOfNoInv: lenOf that does not try to establish phi invariants again.
-func (p *prover) lenOfNoInv(v ssa.Value) linExpr {
-	if ph, ok := v.(*ssa.Phi); ok {
-		k := p.lenKey(ph)
-		if !p.defined[k] {
-			p.defined[k] = true
-			p.add(constraint{linVar(k), "len >= 0"})
-		}
-		return linVar(k)
-	}
-	return p.lenOf(v)
 }
 
 // assumptions that depend on the function being analysed --------------------------------------
@@ -547,4 +618,49 @@ func (e *bndEngine) nonZeroAt(p *prover, call *ssa.Call) bool {
 		}
 	}
 	return false
+}
+
+var nonEmptyFieldCache = map[string]bool{}
+
+// nonEmptyField: every store to Struct.field (module-wide) is a non-empty slice literal or
+// append(<same field>, ...), and every composite literal of Struct sets the field.
+func (e *bndEngine) nonEmptyField(st, f string) bool {
+	key := st + "." + f
+	if v, ok := nonEmptyFieldCache[key]; ok {
+		return v
+	}
+	// only worth checking for the fields indexed with len-1
+	if !(st == "groups" && f == "batches") {
+		nonEmptyFieldCache[key] = false
+		return false
+	}
+	ok := true
+	nst := 0
+	for _, fn := range e.w.ModuleFuncs() {
+		for _, s := range fieldStores(fn, st, f) {
+			nst++
+			good := false
+			if cl, isC := s.Val.(*ssa.Call); isC && isCall(cl, "builtin append") {
+				if t, ff, _, ok2 := fieldRefThroughLoad(cl.Call.Args[0]); ok2 && t == st && ff == f {
+					good = true
+				}
+			}
+			if els := varargElems(s.Val); len(els) >= 1 {
+				good = true
+			}
+			if !good {
+				ok = false
+			}
+		}
+		// composite literals of the struct must set the field
+		eachInstr(fn, func(in ssa.Instruction) {
+			if al, isAl := in.(*ssa.Alloc); isAl && al.Comment == "complit" && structName(al.Type()) == st {
+				if _, has := complitFields(al)[f]; !has {
+					ok = false
+				}
+			}
+		})
+	}
+	nonEmptyFieldCache[key] = ok && nst >= 1
+	return nonEmptyFieldCache[key]
 }
